@@ -22,6 +22,7 @@
 (***************************************************************************)
 EXTENDS PdfObjects, TLC
 
+
 Frame(fk, off, num, gen) ==
     [fk |-> fk, items |-> <<>>, d |-> EmptyMap, key |-> <<>>, hk |-> FALSE, num |-> num, gen |-> gen, off |-> off]
 
